@@ -185,8 +185,13 @@ def user_table(rng, builtin_keys):
     tbl = {}
     used = set()
     for i in range(n):
-        if rng.random() < 0.4:
+        r0 = rng.random()
+        if r0 < 0.35:
             k = rng.choice(builtin_keys)
+        elif r0 < 0.55:
+            # a new key that extends a built-in one (doubled last letter, extra letters): the fuzzy search sees both
+            b = rng.choice(builtin_keys)
+            k = b + rng.choice([b[-1], b[-1] * 2, rng.choice('abcdefgmprstwxz'), b[-1] + rng.choice('abcdpst')])
         else:
             k = ''.join(rng.choice('abcdefghklmnopqrstuvwxz') for _ in range(rng.randint(1, 4)))
             if rng.random() < 0.1:
